@@ -18,6 +18,23 @@
     (`LenInv`, `msg_length`), every `log`/division has a positive argument (`sum_exp_pos`, `precAt_pos`,
     `evidence_pos`), the `headD` defaults of the model are never reached (`LenInv`).
 
+  THE MESSAGE (C08n).  The model passes on the NORMALISED joint: `BOCD.step` ends with `logMessage := row` (the
+  one-line repair of `bocd.py`; before it the field held the unnormalised `new_log_joint`).  Consequences here:
+  * `Lemmas/BOCDUnnormalised.lean` keeps the OLD step verbatim as a ghost/reference recursion `BOCDU.step`
+    (`BOCDU.runUpd`); it is not part of the model.  The classical message-level theorems (Adams–MacKay recursion
+    with the unnormalised message, message = joint, Σ message = evidence) are proved for it in `namespace U` below,
+    with the texts the registered theorems had before the repair.
+  * `U.step_shift` (gauge invariance: shifting the incoming log-message by a constant shifts the outgoing one by the
+    same constant and changes NOTHING else) and `sim_run` (simulation): along every run the model state equals the
+    ghost state in `n, drift, row, predMean, predVar, means, precs`, and its log-message is the ghost's minus
+    `log (evidence)`.  Hence every theorem about row / drift / predictions is unchanged (same text, same strength).
+  * the registered theorems that MENTION the message (`message_forward_step`, `message_forward`,
+    `message_eq_joint_test`, `message_eq_joint`, `evidence_eq_joint`) are restated for the normalised message:
+    `M' = fwd(M)/Σ fwd(M)`, `M_t[r] = P(r_t = r | x_{1:t})`, `Σ M_t = 1`, and the evidence now appears as the factor
+    between the model's and the ghost's message and (one step) as the model's normaliser
+    `Σ fwd(M_t) = P(x_{1:t+1}) / P(x_{1:t})`.  `row_eq_log_msg` holds verbatim.
+  * new: `logMessage_eq_row` (every carrier), `message_normalised`, `message_normalised_vs_evidence`.
+
   Main theorems (task numbering)
     1. `params_closed_form`, `params_entry`
     2. `row_normalised` (all reachable states), `row_normalised_step` (any state)
@@ -25,7 +42,9 @@
        `Lemmas/C08Argmax.lean`), `argmax_real`, `map_rule_real`
     4. `message_forward_step`, `message_forward`, `row_eq_log_msg`; and the full forward-algorithm correctness
        `message_eq_joint_test`, `message_eq_joint`, `evidence_eq_joint`, `posterior_exact`,
-       `posterior_exact_gaussian` (sum over explicit changepoint configurations)
+       `posterior_exact_gaussian` (sum over explicit changepoint configurations);
+       `message_normalised` (every reachable state: message = exp row, sums to one), `sim_run`, `sim_fields`,
+       `sim_msg`, `U.step_shift`, and the `U.*` theorems about the unnormalised ghost recursion
     5. `pred_step`, `pred_mixture` (weights = CURRENT row, every run length `0..t`), `pred_mixture_posterior`
        (weights = exact posterior, convex combination), `pred_mean_first`
 -/
@@ -33,6 +52,7 @@ import FrourosProofs.RealNum
 import FrourosProofs.Machines
 import FrourosProofs.Lemmas.C08Argmax
 import FrourosProofs.Lemmas.C08List
+import FrourosProofs.Lemmas.BOCDUnnormalised
 import Mathlib.Analysis.SpecialFunctions.Trigonometric.Basic
 import Mathlib.Tactic
 
@@ -90,6 +110,46 @@ theorem run_since_reset (f : Fns α) (c : Cfg α) (pre : List (Op α)) (xs : Lis
 
 theorem step_precs (f : Fns α) (c : Cfg α) (s : State α) (v : α) :
     (step f c s v).precs = s.precs.headD Num.zero :: s.precs.map (· + Num.one / c.dataVar) := rfl
+
+/-- **the message IS the row (every carrier, every reachable state, any history of updates and resets).**
+This is the repaired line `logMessage := row` read as a state invariant. -/
+theorem logMessage_eq_row (f : Fns α) (c : Cfg α) {s : State α} (h : (BOCD.machine f c).Reachable s) :
+    s.logMessage = s.row := by
+  cases h with
+  | init => rfl
+  | step v _ => rfl
+  | reset _ => rfl
+
+/-! ### the ghost recursion `BOCDU` (unnormalised message): bookkeeping, every carrier -/
+
+theorem U.lenInv_step (f : Fns α) (c : Cfg α) (s : State α) (v : α) (h : LenInv s) : LenInv (BOCDU.step f c s v) := by
+  obtain ⟨_, h2, h3, h4⟩ := h
+  simp [LenInv, BOCDU.step, varParams, h2, h3, h4]
+
+theorem U.lenInv_runUpd (f : Fns α) (c : Cfg α) (xs : List α) : LenInv (BOCDU.runUpd f c xs) := by
+  induction xs using List.reverseRecOn with
+  | nil => exact lenInv_init c
+  | append_singleton xs v ih => rw [BOCDU.runUpd_snoc]; exact U.lenInv_step f c _ v ih
+
+/-- counter and per-run-length parameters never read the message: the ghost run has the model's -/
+theorem U.runUpd_params (f : Fns α) (c : Cfg α) (xs : List α) :
+    (BOCDU.runUpd f c xs).n = (runUpd f c xs).n ∧ (BOCDU.runUpd f c xs).means = (runUpd f c xs).means ∧
+    (BOCDU.runUpd f c xs).precs = (runUpd f c xs).precs := by
+  induction xs using List.reverseRecOn with
+  | nil => exact ⟨rfl, rfl, rfl⟩
+  | append_singleton xs v ih =>
+    obtain ⟨h1, h2, h3⟩ := ih
+    rw [BOCDU.runUpd_snoc, runUpd_snoc]
+    refine ⟨?_, ?_, ?_⟩
+    · show (BOCDU.runUpd f c xs).n + 1 = (runUpd f c xs).n + 1
+      rw [h1]
+    · show (BOCDU.runUpd f c xs).means.headD Num.zero :: _ = (runUpd f c xs).means.headD Num.zero :: _
+      rw [h2, h3]
+    · show (BOCDU.runUpd f c xs).precs.headD Num.zero :: _ = (runUpd f c xs).precs.headD Num.zero :: _
+      rw [h3]
+
+theorem U.runUpd_n (f : Fns α) (c : Cfg α) (xs : List α) : (BOCDU.runUpd f c xs).n = xs.length := by
+  rw [(U.runUpd_params f c xs).1, C08.runUpd_n]
 
 /-! ## 3. MAP decision rule and warm-up (arbitrary carrier) -/
 
@@ -341,51 +401,20 @@ theorem exp_lpm (f : Fns ℝ) (c : Cfg ℝ) (v : ℝ) : ∀ (means precs lm : Li
         simp only [Real.exp_add, predDens, RealNum.sqrt_eq, RealNum.one_eq]
         rw [mul_comm]
 
-/-- **4. Adams–MacKay forward recursion, one step from any state satisfying `LenInv`, linear space.**
-With `M = exp logMessage`, `π = piList` (predictive densities): `M'[0] = Σ_r M[r]·π[r]·h`,
-`M'[r+1] = M[r]·π[r]·(1-h)`, and `row'[r] = log (M'[r] / Σ M')`.  `LenInv` guarantees that the three zipped lists
-have equal, non-zero length (so nothing is truncated and `logsumexp` is applied to non-empty lists). -/
-theorem message_forward_step (f : Fns ℝ) (hLSE : LSESpec f) (c : Cfg ℝ) (h : ℝ) (h0 : 0 < h) (h1 : h < 1)
-    (hH : c.logH = Real.log h) (h1H : c.log1mH = Real.log (1 - h))
-    (s : State ℝ) (hs : LenInv s) (v : ℝ) :
-    msg (step f c s v) =
-        (List.zipWith (fun m p => m * p * h) (msg s) (piList f c s v)).sum ::
-          List.zipWith (fun m p => m * p * (1 - h)) (msg s) (piList f c s v) ∧
-    (step f c s v).row = (msg (step f c s v)).map (fun m => Real.log (m / (msg (step f c s v)).sum)) := by
-  obtain ⟨_, hl2, hl3, hl4⟩ := hs
-  -- names for the intermediate lists of `step`
-  set lpm := List.zipWith (· + ·)
-    (List.zipWith (fun mu var => normLogPdf f mu (Num.sqrt var) v) s.means (varParams c s.precs)) s.logMessage with hlpm
-  have hjoint : (step f c s v).logMessage = f.logSumExp (lpm.map (· + c.logH)) :: lpm.map (· + c.log1mH) := rfl
-  have hrow : (step f c s v).row =
-      ((step f c s v).logMessage).map (· - f.logSumExp (step f c s v).logMessage) := rfl
-  have hlpmE : lpm.map Real.exp = List.zipWith (fun m p => m * p) (msg s) (piList f c s v) := exp_lpm f c v _ _ _
-  have hne : lpm ≠ [] := by
-    intro h0
-    have : lpm.length = 0 := by rw [h0]; rfl
-    simp [hlpm, varParams, hl2, hl3, hl4] at this
-  have hmsg : msg (step f c s v) =
-        (List.zipWith (fun m p => m * p * h) (msg s) (piList f c s v)).sum ::
-          List.zipWith (fun m p => m * p * (1 - h)) (msg s) (piList f c s v) := by
-    unfold msg at *
-    rw [hjoint, List.map_cons, map_exp_add, hlpmE, hLSE _ (by simpa using hne), map_exp_add, hlpmE,
-      Real.exp_log, hH, h1H, Real.exp_log h0, Real.exp_log (by linarith)]
-    · simp [List.map_zipWith]
-    · rw [sum_map_mul_const]
-      have := sum_exp_pos lpm hne
-      rw [hlpmE] at this
-      have hh : 0 < Real.exp c.logH := Real.exp_pos _
-      positivity
-  refine ⟨hmsg, ?_⟩
-  rw [hrow, hLSE _ (by rw [hjoint]; exact List.cons_ne_nil _ _)]
-  unfold msg
-  rw [List.map_map]
-  apply List.map_congr_left
-  intro x _
-  have hS : 0 < ((step f c s v).logMessage.map Real.exp).sum :=
-    sum_exp_pos _ (by rw [hjoint]; exact List.cons_ne_nil _ _)
-  simp only [Function.comp]
-  rw [Real.log_div (Real.exp_pos x).ne' hS.ne', Real.log_exp]
+/-- one Adams–MacKay forward step in linear space: from the message `M` and the predictive densities `π`,
+`fwd h M π = (Σ_r M[r]·π[r]·h) :: [M[r]·π[r]·(1-h)]_r` (changepoint mass first, then the grown run lengths) -/
+noncomputable def fwd (h : ℝ) (M π : List ℝ) : List ℝ :=
+  (List.zipWith (fun m p => m * p * h) M π).sum :: List.zipWith (fun m p => m * p * (1 - h)) M π
+
+/-- a list divided by its sum -/
+noncomputable def normalise (l : List ℝ) : List ℝ := l.map (· / l.sum)
+
+theorem sum_map_div_const (a : ℝ) (l : List ℝ) : (l.map (· / a)).sum = l.sum / a := by
+  have : (fun x : ℝ => x / a) = (· * a⁻¹) := by funext x; rw [div_eq_mul_inv]
+  rw [this, sum_map_mul_const, div_eq_mul_inv]
+
+theorem normalise_sum (l : List ℝ) (hl : l.sum ≠ 0) : (normalise l).sum = 1 := by
+  rw [normalise, sum_map_div_const, div_self hl]
 
 theorem msg_init (c : Cfg ℝ) : msg (init c) = [1] := by simp [msg, init]
 
@@ -404,16 +433,308 @@ theorem piList_closed (f : Fns ℝ) (c : Cfg ℝ) (hpv : 0 < c.priorVar) (hdv : 
   rw [hp, hm, zipWith_map_map]
   rfl
 
-/-- **4. Forward recursion along a run, with the closed-form predictive densities `π_t[r] = piAt f c xs v r`**:
-`M_0 = [1]`; `M_{t+1}[0] = Σ_{r≤t} M_t[r]·π[r]·h`; `M_{t+1}[r+1] = M_t[r]·π[r]·(1-h)`;
-`row_{t+1}[r] = log (M_{t+1}[r] / Σ M_{t+1})`.  Both zipped lists have length `t+1` (`msg_length`). -/
+/-! ### 4-U. The ghost recursion `BOCDU` (UNNORMALISED message, the step function before the repair)
+
+The theorems of this namespace are the message-level theorems as they were registered before the repair, with
+`BOCD.step`/`runUpd` replaced by `BOCDU.step`/`BOCDU.runUpd`; their proofs are unchanged. -/
+namespace U
+
+/-- **Adams–MacKay forward recursion for the UNNORMALISED message (ghost), one step from any state satisfying
+`LenInv`, linear space.**  With `M = exp logMessage`, `π = piList`: `M' = fwd h M π`, i.e. `M'[0] = Σ_r M[r]·π[r]·h`,
+`M'[r+1] = M[r]·π[r]·(1-h)`, and `row'[r] = log (M'[r] / Σ M')`. -/
+theorem message_forward_step (f : Fns ℝ) (hLSE : LSESpec f) (c : Cfg ℝ) (h : ℝ) (h0 : 0 < h) (h1 : h < 1)
+    (hH : c.logH = Real.log h) (h1H : c.log1mH = Real.log (1 - h))
+    (s : State ℝ) (hs : LenInv s) (v : ℝ) :
+    msg (BOCDU.step f c s v) =
+        (List.zipWith (fun m p => m * p * h) (msg s) (piList f c s v)).sum ::
+          List.zipWith (fun m p => m * p * (1 - h)) (msg s) (piList f c s v) ∧
+    (BOCDU.step f c s v).row =
+      (msg (BOCDU.step f c s v)).map (fun m => Real.log (m / (msg (BOCDU.step f c s v)).sum)) := by
+  obtain ⟨_, hl2, hl3, hl4⟩ := hs
+  -- names for the intermediate lists of `step`
+  set lpm := List.zipWith (· + ·)
+    (List.zipWith (fun mu var => normLogPdf f mu (Num.sqrt var) v) s.means (varParams c s.precs)) s.logMessage with hlpm
+  have hjoint : (BOCDU.step f c s v).logMessage = f.logSumExp (lpm.map (· + c.logH)) :: lpm.map (· + c.log1mH) := rfl
+  have hrow : (BOCDU.step f c s v).row =
+      ((BOCDU.step f c s v).logMessage).map (· - f.logSumExp (BOCDU.step f c s v).logMessage) := rfl
+  have hlpmE : lpm.map Real.exp = List.zipWith (fun m p => m * p) (msg s) (piList f c s v) := exp_lpm f c v _ _ _
+  have hne : lpm ≠ [] := by
+    intro h0
+    have : lpm.length = 0 := by rw [h0]; rfl
+    simp [hlpm, varParams, hl2, hl3, hl4] at this
+  have hmsg : msg (BOCDU.step f c s v) =
+        (List.zipWith (fun m p => m * p * h) (msg s) (piList f c s v)).sum ::
+          List.zipWith (fun m p => m * p * (1 - h)) (msg s) (piList f c s v) := by
+    unfold msg at *
+    rw [hjoint, List.map_cons, map_exp_add, hlpmE, hLSE _ (by simpa using hne), map_exp_add, hlpmE,
+      Real.exp_log, hH, h1H, Real.exp_log h0, Real.exp_log (by linarith)]
+    · simp [List.map_zipWith]
+    · rw [sum_map_mul_const]
+      have := sum_exp_pos lpm hne
+      rw [hlpmE] at this
+      have hh : 0 < Real.exp c.logH := Real.exp_pos _
+      positivity
+  refine ⟨hmsg, ?_⟩
+  rw [hrow, hLSE _ (by rw [hjoint]; exact List.cons_ne_nil _ _)]
+  unfold msg
+  rw [List.map_map]
+  apply List.map_congr_left
+  intro x _
+  have hS : 0 < ((BOCDU.step f c s v).logMessage.map Real.exp).sum :=
+    sum_exp_pos _ (by rw [hjoint]; exact List.cons_ne_nil _ _)
+  simp only [Function.comp]
+  rw [Real.log_div (Real.exp_pos x).ne' hS.ne', Real.log_exp]
+
+theorem msg_length (f : Fns ℝ) (c : Cfg ℝ) (xs : List ℝ) : (msg (BOCDU.runUpd f c xs)).length = xs.length + 1 := by
+  rw [msg, List.length_map, (U.lenInv_runUpd f c xs).2.1, U.runUpd_n]
+
+theorem piList_closed (f : Fns ℝ) (c : Cfg ℝ) (hpv : 0 < c.priorVar) (hdv : 0 < c.dataVar) (xs : List ℝ) (v : ℝ) :
+    piList f c (BOCDU.runUpd f c xs) v = (List.range (xs.length + 1)).map (piAt f c xs v) := by
+  rw [← C08.piList_closed f c hpv hdv xs v]
+  unfold piList
+  rw [(U.runUpd_params f c xs).2.1, (U.runUpd_params f c xs).2.2]
+
+/-- **Forward recursion along a ghost run (unnormalised message), closed-form predictive densities.** -/
+theorem message_forward (f : Fns ℝ) (hLSE : LSESpec f) (c : Cfg ℝ) (h : ℝ) (h0 : 0 < h) (h1 : h < 1)
+    (hH : c.logH = Real.log h) (h1H : c.log1mH = Real.log (1 - h)) (hpv : 0 < c.priorVar) (hdv : 0 < c.dataVar)
+    (xs : List ℝ) (v : ℝ) :
+    msg (BOCDU.runUpd f c []) = [1] ∧
+    msg (BOCDU.runUpd f c (xs ++ [v])) =
+        (List.zipWith (fun m p => m * p * h) (msg (BOCDU.runUpd f c xs)) ((List.range (xs.length + 1)).map (piAt f c xs v))).sum ::
+          List.zipWith (fun m p => m * p * (1 - h)) (msg (BOCDU.runUpd f c xs)) ((List.range (xs.length + 1)).map (piAt f c xs v)) ∧
+    (BOCDU.runUpd f c (xs ++ [v])).row =
+      (msg (BOCDU.runUpd f c (xs ++ [v]))).map (fun m => Real.log (m / (msg (BOCDU.runUpd f c (xs ++ [v]))).sum)) := by
+  refine ⟨msg_init c, ?_⟩
+  have := message_forward_step f hLSE c h h0 h1 hH h1H (BOCDU.runUpd f c xs) (U.lenInv_runUpd f c xs) v
+  rw [piList_closed f c hpv hdv, ← BOCDU.runUpd_snoc] at this
+  exact this
+
+/-- in every state of a ghost run the row is the normalised message, `row[r] = log (M[r] / Σ M)` -/
+theorem row_eq_log_msg (f : Fns ℝ) (hLSE : LSESpec f) (c : Cfg ℝ) (h : ℝ) (h0 : 0 < h) (h1 : h < 1)
+    (hH : c.logH = Real.log h) (h1H : c.log1mH = Real.log (1 - h)) (xs : List ℝ) :
+    (BOCDU.runUpd f c xs).row =
+      (msg (BOCDU.runUpd f c xs)).map (fun m => Real.log (m / (msg (BOCDU.runUpd f c xs)).sum)) := by
+  induction xs using List.reverseRecOn with
+  | nil => simp [BOCDU.runUpd, init, msg]
+  | append_singleton xs v _ =>
+    rw [BOCDU.runUpd_snoc]
+    exact (message_forward_step f hLSE c h h0 h1 hH h1H _ (U.lenInv_runUpd f c xs) v).2
+
+/-- the ghost message is positive and non-empty: its sum (the evidence) is positive -/
+theorem msg_sum_pos (f : Fns ℝ) (c : Cfg ℝ) (xs : List ℝ) : 0 < (msg (BOCDU.runUpd f c xs)).sum := by
+  apply sum_exp_pos
+  intro h0
+  have := (U.lenInv_runUpd f c xs).2.1
+  rw [h0] at this; simp at this
+
+end U
+
+/-! ### 4-S. Gauge invariance and the simulation: the repair changes the message by a constant and nothing else -/
+
+/-- `logsumexp` commutes with a constant shift (exact routine, non-empty list) -/
+theorem lse_shift (f : Fns ℝ) (hLSE : LSESpec f) (k : ℝ) (l : List ℝ) (hl : l ≠ []) :
+    f.logSumExp (l.map (· - k)) = f.logSumExp l - k := by
+  rw [hLSE _ (by simpa using hl), hLSE _ hl, sum_exp_sub,
+    Real.log_div (sum_exp_pos l hl).ne' (Real.exp_pos k).ne', Real.log_exp]
+
+theorem zipWith_add_map_sub (k : ℝ) : ∀ (a b : List ℝ),
+    List.zipWith (· + ·) a (b.map (· - k)) = (List.zipWith (· + ·) a b).map (· - k) := by
+  intro a
+  induction a with
+  | nil => intro b; simp
+  | cons x a ih =>
+    intro b
+    cases b with
+    | nil => simp
+    | cons y b => simp only [List.map_cons, List.zipWith_cons_cons, ih b]; congr 1; ring
+
+/-- the unnormalised joint is equivariant under a constant shift of the incoming log-message -/
+theorem jointOf_shift (f : Fns ℝ) (hLSE : LSESpec f) (c : Cfg ℝ) (means precs lm : List ℝ) (v k : ℝ)
+    (hm : means.length = lm.length) (hp : precs.length = lm.length) (hl : lm ≠ []) :
+    BOCDU.jointOf f c means precs (lm.map (· - k)) v = (BOCDU.jointOf f c means precs lm v).map (· - k) := by
+  unfold BOCDU.jointOf
+  simp only []
+  rw [zipWith_add_map_sub]
+  set lpm := List.zipWith (· + ·)
+    (List.zipWith (fun mu var => normLogPdf f mu (Num.sqrt var) v) means (varParams c precs)) lm with hlpm
+  have hne : lpm ≠ [] := by
+    have hlen : lpm.length = lm.length := by simp [hlpm, varParams, hm, hp]
+    intro h0
+    rw [h0] at hlen
+    exact hl (List.length_eq_zero_iff.mp hlen.symm)
+  have e1 : (lpm.map (· - k)).map (· + c.logH) = (lpm.map (· + c.logH)).map (· - k) := by
+    rw [List.map_map, List.map_map]; apply List.map_congr_left; intro x _; simp only [Function.comp]; ring
+  have e2 : (lpm.map (· - k)).map (· + c.log1mH) = (lpm.map (· + c.log1mH)).map (· - k) := by
+    rw [List.map_map, List.map_map]; apply List.map_congr_left; intro x _; simp only [Function.comp]; ring
+  rw [e1, e2, lse_shift f hLSE k _ (by simpa using hne), List.map_cons]
+
+/-- **gauge invariance of the (ghost) step.**  Subtracting a constant `k` from every entry of the incoming
+log-message (= dividing the linear message by `exp k`) subtracts the same `k` from the outgoing log-message and
+changes NO other field: row, drift flag, predictions, parameters, counter are identical.  Hypotheses: `LSESpec f`,
+`LenInv s` (the zipped lists are non-empty, so `logsumexp` is applied to non-empty lists). -/
+theorem U.step_shift (f : Fns ℝ) (hLSE : LSESpec f) (c : Cfg ℝ) (s : State ℝ) (hs : LenInv s) (v k : ℝ) :
+    BOCDU.step f c { s with logMessage := s.logMessage.map (· - k) } v =
+      { BOCDU.step f c s v with logMessage := (BOCDU.step f c s v).logMessage.map (· - k) } := by
+  obtain ⟨_, hl2, hl3, hl4⟩ := hs
+  have hne : s.logMessage ≠ [] := by intro h0; rw [h0] at hl2; simp at hl2
+  rw [BOCDU.step_eq_finish, BOCDU.step_eq_finish]
+  show BOCDU.finish c s v
+      ((BOCDU.jointOf f c s.means s.precs (s.logMessage.map (· - k)) v).map
+        (· - f.logSumExp (BOCDU.jointOf f c s.means s.precs (s.logMessage.map (· - k)) v)))
+      (BOCDU.jointOf f c s.means s.precs (s.logMessage.map (· - k)) v) =
+    BOCDU.finish c s v
+      ((BOCDU.jointOf f c s.means s.precs s.logMessage v).map
+        (· - f.logSumExp (BOCDU.jointOf f c s.means s.precs s.logMessage v)))
+      ((BOCDU.jointOf f c s.means s.precs s.logMessage v).map (· - k))
+  rw [jointOf_shift f hLSE c _ _ _ v k (by rw [hl3, hl2]) (by rw [hl4, hl2]) hne]
+  have hJ : BOCDU.jointOf f c s.means s.precs s.logMessage v ≠ [] := List.cons_ne_nil _ _
+  rw [lse_shift f hLSE k _ hJ, List.map_map]
+  congr 1
+  apply List.map_congr_left
+  intro x _
+  simp only [Function.comp]
+  ring
+
+/-- **the simulation (state form).**  After the same updates `xs`, the model state (normalised message) is the
+ghost state (unnormalised message) with the log-message shifted by `log Σ M^U` — the log-evidence, see
+`U.evidence_eq_joint`; ALL other fields coincide.  Only `LSESpec f` is used. -/
+theorem sim_run (f : Fns ℝ) (hLSE : LSESpec f) (c : Cfg ℝ) (xs : List ℝ) :
+    runUpd f c xs = { BOCDU.runUpd f c xs with
+      logMessage := (BOCDU.runUpd f c xs).logMessage.map (· - Real.log ((msg (BOCDU.runUpd f c xs)).sum)) } := by
+  induction xs using List.reverseRecOn with
+  | nil =>
+    have e : (BOCDU.runUpd f c []).logMessage.map (· - Real.log ((msg (BOCDU.runUpd f c [])).sum)) =
+        (init c).logMessage := by
+      simp [BOCDU.runUpd, msg, init]
+    rw [e]; rfl
+  | append_singleton xs v ih =>
+    rw [runUpd_snoc, ih, BOCDU.runUpd_snoc, BOCDU.step_eq_ghost,
+      U.step_shift f hLSE c _ (U.lenInv_runUpd f c xs)]
+    show { BOCDU.step f c (BOCDU.runUpd f c xs) v with logMessage := (BOCDU.step f c (BOCDU.runUpd f c xs) v).row } = _
+    have hne : (BOCDU.step f c (BOCDU.runUpd f c xs) v).logMessage ≠ [] := List.cons_ne_nil _ _
+    rw [BOCDU.ghost_row_eq, hLSE _ hne]
+    rfl
+
+/-- **the simulation (field form)**: the repair does not change `n`, the drift flag, the row, the predictions or
+the parameters on any stream (over ℝ, exact `logsumexp`) -/
+theorem sim_fields (f : Fns ℝ) (hLSE : LSESpec f) (c : Cfg ℝ) (xs : List ℝ) :
+    (runUpd f c xs).n = (BOCDU.runUpd f c xs).n ∧ (runUpd f c xs).drift = (BOCDU.runUpd f c xs).drift ∧
+    (runUpd f c xs).row = (BOCDU.runUpd f c xs).row ∧ (runUpd f c xs).predMean = (BOCDU.runUpd f c xs).predMean ∧
+    (runUpd f c xs).predVar = (BOCDU.runUpd f c xs).predVar ∧ (runUpd f c xs).means = (BOCDU.runUpd f c xs).means ∧
+    (runUpd f c xs).precs = (BOCDU.runUpd f c xs).precs := by
+  have h := sim_run f hLSE c xs
+  exact ⟨by rw [h], by rw [h], by rw [h], by rw [h], by rw [h], by rw [h], by rw [h]⟩
+
+/-- **the simulation (message, linear space)**: the model's message is the ghost's divided by its sum -/
+theorem sim_msg (f : Fns ℝ) (hLSE : LSESpec f) (c : Cfg ℝ) (xs : List ℝ) :
+    msg (runUpd f c xs) = normalise (msg (BOCDU.runUpd f c xs)) := by
+  have h := congrArg State.logMessage (sim_run f hLSE c xs)
+  have hS := U.msg_sum_pos f c xs
+  unfold normalise
+  rw [msg, h]
+  show ((BOCDU.runUpd f c xs).logMessage.map _).map Real.exp = ((BOCDU.runUpd f c xs).logMessage.map Real.exp).map _
+  rw [List.map_map, List.map_map]
+  apply List.map_congr_left
+  intro x _
+  simp only [Function.comp]
+  rw [Real.exp_sub, Real.exp_log hS]
+
+/-! ### 4-M. The model: forward recursion with the NORMALISED message -/
+
+/-- **4. Adams–MacKay forward recursion with normalisation, one step of the MODEL from any state satisfying
+`LenInv`, linear space.**  With `M = exp logMessage`, `π = piList` (predictive densities):
+`M' = fwd h M π / Σ (fwd h M π)` where `fwd h M π = (Σ_r M[r]·π[r]·h) :: [M[r]·π[r]·(1-h)]_r` is the classical
+(unnormalised) forward step; `row'[r] = log (M'[r] / Σ M')` (and `Σ M' = 1`, `message_normalised`).  `LenInv`
+guarantees that the three zipped lists have equal, non-zero length (so nothing is truncated and `logsumexp` is
+applied to non-empty lists).  [Before the repair: `M' = fwd h M π` — now `U.message_forward_step`.] -/
+theorem message_forward_step (f : Fns ℝ) (hLSE : LSESpec f) (c : Cfg ℝ) (h : ℝ) (h0 : 0 < h) (h1 : h < 1)
+    (hH : c.logH = Real.log h) (h1H : c.log1mH = Real.log (1 - h))
+    (s : State ℝ) (hs : LenInv s) (v : ℝ) :
+    msg (step f c s v) = normalise (fwd h (msg s) (piList f c s v)) ∧
+    (step f c s v).row = (msg (step f c s v)).map (fun m => Real.log (m / (msg (step f c s v)).sum)) := by
+  obtain ⟨hU, hUrow⟩ := U.message_forward_step f hLSE c h h0 h1 hH h1H s hs v
+  have hne : (BOCDU.step f c s v).logMessage ≠ [] := List.cons_ne_nil _ _
+  have hS : 0 < (msg (BOCDU.step f c s v)).sum := sum_exp_pos _ hne
+  have hrow : (step f c s v).row = (BOCDU.step f c s v).row := rfl
+  have hmsg : msg (step f c s v) = (step f c s v).row.map Real.exp := rfl
+  have hM : msg (step f c s v) = normalise (msg (BOCDU.step f c s v)) := by
+    rw [hmsg, hrow, hUrow, List.map_map]
+    unfold normalise
+    apply List.map_congr_left
+    intro x hx
+    have hx0 : 0 < x := by
+      obtain ⟨y, _, rfl⟩ := List.mem_map.mp hx
+      exact Real.exp_pos y
+    simp only [Function.comp]
+    rw [Real.exp_log (div_pos hx0 hS)]
+  refine ⟨by rw [hM, hU]; rfl, ?_⟩
+  rw [hrow, hUrow, hM, normalise_sum _ hS.ne']
+  unfold normalise
+  rw [List.map_map]
+  apply List.map_congr_left
+  intro x _
+  simp only [Function.comp, div_one]
+
+/-- **what the model divides by.**  With `J = BOCDU.jointOf …` the unnormalised log joint that `BOCD.step` computes
+from state `s` and value `v` (`new_log_joint` in the Python code): the new row AND the new message are
+`J - logsumexp J` (definitional), and the normaliser `exp (logsumexp J)` is `Σ fwd h M π = Σ_r M[r]·π[r]`, the
+one-step predictive density of `v` under the current run-length distribution (see `evidence_eq_joint` (iii)). -/
+theorem normaliser_eq (f : Fns ℝ) (hLSE : LSESpec f) (c : Cfg ℝ) (h : ℝ) (h0 : 0 < h) (h1 : h < 1)
+    (hH : c.logH = Real.log h) (h1H : c.log1mH = Real.log (1 - h))
+    (s : State ℝ) (hs : LenInv s) (v : ℝ) :
+    (step f c s v).row = (BOCDU.jointOf f c s.means s.precs s.logMessage v).map
+        (· - f.logSumExp (BOCDU.jointOf f c s.means s.precs s.logMessage v)) ∧
+    (step f c s v).logMessage = (step f c s v).row ∧
+    Real.exp (f.logSumExp (BOCDU.jointOf f c s.means s.precs s.logMessage v)) =
+      (fwd h (msg s) (piList f c s v)).sum ∧
+    (fwd h (msg s) (piList f c s v)).sum = (List.zipWith (· * ·) (msg s) (piList f c s v)).sum := by
+  refine ⟨rfl, rfl, ?_, ?_⟩
+  · have hJ : BOCDU.jointOf f c s.means s.precs s.logMessage v = (BOCDU.step f c s v).logMessage := rfl
+    have hne : (BOCDU.step f c s v).logMessage ≠ [] := List.cons_ne_nil _ _
+    rw [hJ, hLSE _ hne, Real.exp_log (sum_exp_pos _ hne)]
+    show (msg (BOCDU.step f c s v)).sum = _
+    rw [(U.message_forward_step f hLSE c h h0 h1 hH h1H s hs v).1]
+    rfl
+  · unfold fwd
+    rw [List.sum_cons]
+    generalize msg s = M
+    generalize piList f c s v = P
+    induction M generalizing P with
+    | nil => simp
+    | cons m M ih =>
+      cases P with
+      | nil => simp
+      | cons p P =>
+        simp only [List.zipWith_cons_cons, List.sum_cons]
+        have := ih P
+        linarith
+
+/-- one update from ANY state: the new message is the `exp` of the new row and sums to one -/
+theorem message_normalised_step (f : Fns ℝ) (hLSE : LSESpec f) (c : Cfg ℝ) (s : State ℝ) (v : ℝ) :
+    msg (step f c s v) = (step f c s v).row.map Real.exp ∧ (msg (step f c s v)).sum = 1 :=
+  ⟨rfl, row_normalised_step f hLSE c s v⟩
+
+/-- **NEW (C08n). The message is the run-length distribution.**  In EVERY reachable state (any history of updates
+and resets) the linear-space message is `exp` of the row, has `n+1` entries and sums to ONE.  Only `LSESpec f`.
+Contrast: for the unnormalised recursion `Σ M^U_t` is the evidence `P(x_{1:t})` (`U.evidence_eq_joint`,
+`message_normalised_vs_evidence`), which tends to `0` or `∞` geometrically in `t`. -/
+theorem message_normalised (f : Fns ℝ) (hLSE : LSESpec f) (c : Cfg ℝ) {s : State ℝ}
+    (h : (BOCD.machine f c).Reachable s) :
+    msg s = s.row.map Real.exp ∧ (msg s).sum = 1 ∧ (msg s).length = s.n + 1 := by
+  have e : msg s = s.row.map Real.exp := by rw [msg, logMessage_eq_row f c h]
+  obtain ⟨h1, h2⟩ := row_normalised f hLSE c h
+  exact ⟨e, by rw [e, h1], by rw [e, List.length_map, h2]⟩
+
+/-- **4. Forward recursion along a run of the MODEL, with the closed-form predictive densities
+`π_t[r] = piAt f c xs v r`**: `M_0 = [1]`; `M_{t+1} = fwd h M_t π_t / Σ fwd h M_t π_t`, i.e.
+`M_{t+1}[0] ∝ Σ_{r≤t} M_t[r]·π[r]·h`, `M_{t+1}[r+1] ∝ M_t[r]·π[r]·(1-h)`; `row_{t+1}[r] = log (M_{t+1}[r] / Σ M_{t+1})`.
+Both zipped lists have length `t+1` (`msg_length`). -/
 theorem message_forward (f : Fns ℝ) (hLSE : LSESpec f) (c : Cfg ℝ) (h : ℝ) (h0 : 0 < h) (h1 : h < 1)
     (hH : c.logH = Real.log h) (h1H : c.log1mH = Real.log (1 - h)) (hpv : 0 < c.priorVar) (hdv : 0 < c.dataVar)
     (xs : List ℝ) (v : ℝ) :
     msg (runUpd f c []) = [1] ∧
     msg (runUpd f c (xs ++ [v])) =
-        (List.zipWith (fun m p => m * p * h) (msg (runUpd f c xs)) ((List.range (xs.length + 1)).map (piAt f c xs v))).sum ::
-          List.zipWith (fun m p => m * p * (1 - h)) (msg (runUpd f c xs)) ((List.range (xs.length + 1)).map (piAt f c xs v)) ∧
+        normalise (fwd h (msg (runUpd f c xs)) ((List.range (xs.length + 1)).map (piAt f c xs v))) ∧
     (runUpd f c (xs ++ [v])).row =
       (msg (runUpd f c (xs ++ [v]))).map (fun m => Real.log (m / (msg (runUpd f c (xs ++ [v]))).sum)) := by
   refine ⟨msg_init c, ?_⟩
@@ -421,7 +742,8 @@ theorem message_forward (f : Fns ℝ) (hLSE : LSESpec f) (c : Cfg ℝ) (h : ℝ)
   rw [piList_closed f c hpv hdv, ← runUpd_snoc] at this
   exact this
 
-/-- in every state of a run the row is the normalised message, `row[r] = log (M[r] / Σ M)` (also at `t = 0`) -/
+/-- in every state of a run the row is the normalised message, `row[r] = log (M[r] / Σ M)` (also at `t = 0`).
+(Verbatim the statement before the repair; now moreover `Σ M = 1`, so `row[r] = log M[r]`: `message_normalised`.) -/
 theorem row_eq_log_msg (f : Fns ℝ) (hLSE : LSESpec f) (c : Cfg ℝ) (h : ℝ) (h0 : 0 < h) (h1 : h < 1)
     (hH : c.logH = Real.log h) (h1H : c.log1mH = Real.log (1 - h)) (xs : List ℝ) :
     (runUpd f c xs).row = (msg (runUpd f c xs)).map (fun m => Real.log (m / (msg (runUpd f c xs)).sum)) := by
@@ -435,17 +757,44 @@ theorem row_eq_log_msg (f : Fns ℝ) (hLSE : LSESpec f) (c : Cfg ℝ) (h : ℝ) 
 theorem row_after_one (f : Fns ℝ) (hLSE : LSESpec f) (c : Cfg ℝ) (h : ℝ) (h0 : 0 < h) (h1 : h < 1)
     (hH : c.logH = Real.log h) (h1H : c.log1mH = Real.log (1 - h)) (hpv : 0 < c.priorVar) (hdv : 0 < c.dataVar)
     (v : ℝ) : (runUpd f c [v]).row = [Real.log h, Real.log (1 - h)] := by
-  obtain ⟨hm0, hm1, hrow⟩ := message_forward f hLSE c h h0 h1 hH h1H hpv hdv [] v
+  obtain ⟨hm0, hm1, hrow⟩ := U.message_forward f hLSE c h h0 h1 hH h1H hpv hdv [] v
   simp only [List.nil_append] at hm1 hrow
-  rw [hrow, hm1, hm0]
+  rw [(sim_fields f hLSE c [v]).2.2.1, hrow, hm1, hm0]
   have hπ : 0 < piAt f c [] v 0 := Real.exp_pos _
   simp only [List.length_nil, Nat.zero_add, List.range_one, List.map_cons, List.map_nil, List.zipWith_cons_cons,
     List.zipWith_nil_left, List.sum_cons, List.sum_nil, one_mul, add_zero]
   have e : piAt f c [] v 0 * h + piAt f c [] v 0 * (1 - h) = piAt f c [] v 0 := by ring
   rw [e, mul_div_cancel_left₀ _ hπ.ne', mul_div_cancel_left₀ _ hπ.ne']
 
+/-- the message after one update, concretely: `[h, 1-h]` (it is a probability vector, whatever `v` and `logC`) -/
+theorem msg_after_one (f : Fns ℝ) (hLSE : LSESpec f) (c : Cfg ℝ) (h : ℝ) (h0 : 0 < h) (h1 : h < 1)
+    (hH : c.logH = Real.log h) (h1H : c.log1mH = Real.log (1 - h)) (hpv : 0 < c.priorVar) (hdv : 0 < c.dataVar)
+    (v : ℝ) : msg (runUpd f c [v]) = [h, 1 - h] := by
+  rw [(message_normalised f hLSE c (runUpd_reachable f c [v])).1, row_after_one f hLSE c h h0 h1 hH h1H hpv hdv v]
+  simp [Real.exp_log h0, Real.exp_log (show (0:ℝ) < 1 - h by linarith)]
+
 example := message_forward exFns exFns_spec (exCfg (1/4)) (1/4) (by norm_num) (by norm_num) rfl rfl
   (by norm_num [exCfg]) (by norm_num [exCfg]) [1, 2] 5
+example := U.message_forward exFns exFns_spec (exCfg (1/4)) (1/4) (by norm_num) (by norm_num) rfl rfl
+  (by norm_num [exCfg]) (by norm_num [exCfg]) [1, 2] 5
+
+/-! Non-vacuity of the simulation and of `message_normalised` on the concrete instance. -/
+example := sim_run exFns exFns_spec (exCfg (1/4)) [1, 2, 5]
+example : (runUpd exFns (exCfg (1/4)) [1, 2, 5]).row = (BOCDU.runUpd exFns (exCfg (1/4)) [1, 2, 5]).row ∧
+    (runUpd exFns (exCfg (1/4)) [1, 2, 5]).drift = (BOCDU.runUpd exFns (exCfg (1/4)) [1, 2, 5]).drift :=
+  ⟨(sim_fields exFns exFns_spec (exCfg (1/4)) [1, 2, 5]).2.2.1, (sim_fields exFns exFns_spec (exCfg (1/4)) [1, 2, 5]).2.1⟩
+example : (msg (runUpd exFns (exCfg (1/4)) [1, 2, 5])).sum = 1 ∧ (msg (runUpd exFns (exCfg (1/4)) [1, 2, 5])).length = 4 := by
+  have := message_normalised exFns exFns_spec (exCfg (1/4)) (runUpd_reachable exFns (exCfg (1/4)) [1, 2, 5])
+  rw [runUpd_n] at this
+  exact ⟨this.2.1, this.2.2⟩
+/-- concrete numbers: after one update (hazard `1/4`) the model's message is the probability vector `[1/4, 3/4]` -/
+example (v : ℝ) : msg (runUpd exFns (exCfg (1/4)) [v]) = [1/4, 3/4] := by
+  rw [msg_after_one exFns exFns_spec (exCfg (1/4)) (1/4) (by norm_num) (by norm_num) rfl rfl
+    (by norm_num [exCfg]) (by norm_num [exCfg]) v]
+  norm_num
+/-- … after a reset in the middle of a history the message is again a probability vector (any history) -/
+example : (msg ((BOCD.machine exFns (exCfg (1/4))).run [.update 7, .reset, .update 1, .update 2])).sum = 1 :=
+  (message_normalised exFns exFns_spec (exCfg (1/4)) (Machine.reachable_run _ _)).2.1
 
 /-! Non-vacuity of the MAP rule (`map_rule`, `map_rule_reachable`, `map_rule_real`): with `minN = 1` the
 hypothesis `minN ≤ n` holds after the first update and BOTH outcomes occur. -/
@@ -561,15 +910,18 @@ theorem nodup_allConfigs (t : ℕ) : (allConfigs t).Nodup := by
     obtain ⟨y, _, hy⟩ := List.mem_map.mp hb
     simp at hy
 
-/-- **Forward-algorithm correctness (test-function form).**  For every `φ`,
-`Σ_r M_t[r]·φ(r) = Σ_{configurations} P(config, x_{1:t})·φ(run length of config)`. -/
+/-! ### 4b-U. Forward-algorithm correctness for the ghost recursion (unnormalised message = joint) -/
+namespace U
+
+/-- **Forward-algorithm correctness (test-function form), unnormalised message.**  For every `φ`,
+`Σ_r M^U_t[r]·φ(r) = Σ_{configurations} P(config, x_{1:t})·φ(run length of config)`. -/
 theorem message_eq_joint_test (f : Fns ℝ) (hLSE : LSESpec f) (c : Cfg ℝ) (h : ℝ) (h0 : 0 < h) (h1 : h < 1)
     (hH : c.logH = Real.log h) (h1H : c.log1mH = Real.log (1 - h)) (hpv : 0 < c.priorVar) (hdv : 0 < c.dataVar)
     (xs : List ℝ) : ∀ φ : ℕ → ℝ,
-    (List.zipWith (fun m r => m * φ r) (msg (runUpd f c xs)) (List.range (xs.length + 1))).sum =
+    (List.zipWith (fun m r => m * φ r) (msg (BOCDU.runUpd f c xs)) (List.range (xs.length + 1))).sum =
       ((allConfigs xs.length).map (fun bs => jointRev f c h xs.reverse bs * φ (runLen bs))).sum := by
   induction xs using List.reverseRecOn with
-  | nil => intro φ; simp [msg, runUpd, init, allConfigs, jointRev, runLen]
+  | nil => intro φ; simp [msg, BOCDU.runUpd, init, allConfigs, jointRev, runLen]
   | append_singleton xs v ih =>
     intro φ
     obtain ⟨_, hmsg, _⟩ := message_forward f hLSE c h h0 h1 hH h1H hpv hdv xs v
@@ -577,7 +929,7 @@ theorem message_eq_joint_test (f : Fns ℝ) (hLSE : LSESpec f) (c : Cfg ℝ) (h 
     have hl : (xs ++ [v]).length = xs.length + 1 := by simp
     rw [hl, List.range_succ_eq_map (n := xs.length + 1), List.zipWith_cons_cons,
       List.zipWith_map_right (f := Nat.succ), List.sum_cons]
-    have := forward_key h (φ 0) (piAt f c xs v) (fun r => φ (r + 1)) (msg (runUpd f c xs)) (List.range (xs.length + 1))
+    have := forward_key h (φ 0) (piAt f c xs v) (fun r => φ (r + 1)) (msg (BOCDU.runUpd f c xs)) (List.range (xs.length + 1))
     rw [this, ih]
     simp only [allConfigs, List.map_append, List.map_map, List.sum_append, List.reverse_append, List.reverse_cons,
       List.reverse_nil, List.nil_append, List.singleton_append, Function.comp_def, jointRev, runLen,
@@ -588,12 +940,12 @@ theorem message_eq_joint_test (f : Fns ℝ) (hLSE : LSESpec f) (c : Cfg ℝ) (h 
     intro bs _
     ring
 
-/-- **Forward-algorithm correctness, entrywise**: `M_t[r]` is the sum of the joint weights of all
-changepoint configurations whose current run length is `r`. -/
+/-- **Forward-algorithm correctness, entrywise, unnormalised message**: `M^U_t[r]` is the sum of the joint weights
+of all changepoint configurations whose current run length is `r`. -/
 theorem message_eq_joint (f : Fns ℝ) (hLSE : LSESpec f) (c : Cfg ℝ) (h : ℝ) (h0 : 0 < h) (h1 : h < 1)
     (hH : c.logH = Real.log h) (h1H : c.log1mH = Real.log (1 - h)) (hpv : 0 < c.priorVar) (hdv : 0 < c.dataVar)
-    (xs : List ℝ) (r : ℕ) (hr : r < (msg (runUpd f c xs)).length) :
-    (msg (runUpd f c xs))[r] =
+    (xs : List ℝ) (r : ℕ) (hr : r < (msg (BOCDU.runUpd f c xs)).length) :
+    (msg (BOCDU.runUpd f c xs))[r] =
       (((allConfigs xs.length).filter (fun bs => decide (runLen bs = r))).map (jointRev f c h xs.reverse)).sum := by
   have key := message_eq_joint_test f hLSE c h h0 h1 hH h1H hpv hdv xs (fun k => if k = r then 1 else 0)
   rw [sum_map_mul_ite (jointRev f c h xs.reverse) (fun bs => runLen bs = r)] at key
@@ -606,25 +958,131 @@ theorem message_eq_joint (f : Fns ℝ) (hLSE : LSESpec f) (c : Cfg ℝ) (h : ℝ
     simp [this]
   · intro hb; exact absurd (Finset.mem_univ _) hb
 
-/-- the normaliser `Σ_r M_t[r]` is the evidence `P(x_{1:t}) = Σ_{all configurations} P(config, x_{1:t})` -/
+/-- for the unnormalised recursion the normaliser `Σ_r M^U_t[r]` is the evidence
+`P(x_{1:t}) = Σ_{all configurations} P(config, x_{1:t})` -/
 theorem evidence_eq_joint (f : Fns ℝ) (hLSE : LSESpec f) (c : Cfg ℝ) (h : ℝ) (h0 : 0 < h) (h1 : h < 1)
     (hH : c.logH = Real.log h) (h1H : c.log1mH = Real.log (1 - h)) (hpv : 0 < c.priorVar) (hdv : 0 < c.dataVar)
     (xs : List ℝ) :
-    (msg (runUpd f c xs)).sum = ((allConfigs xs.length).map (jointRev f c h xs.reverse)).sum := by
+    (msg (BOCDU.runUpd f c xs)).sum = ((allConfigs xs.length).map (jointRev f c h xs.reverse)).sum := by
   have key := message_eq_joint_test f hLSE c h h0 h1 hH h1H hpv hdv xs (fun _ => 1)
   simp only [mul_one] at key
   rw [zipWith_const_right (fun m => m) _ _ (by rw [msg_length]; simp)] at key
   simpa using key
 
-/-- the evidence is positive (the division in `posterior_exact` is a genuine one) -/
+end U
+
+/-- the evidence is positive (the divisions in `message_eq_joint`, `posterior_exact` are genuine ones) -/
 theorem evidence_pos (f : Fns ℝ) (hLSE : LSESpec f) (c : Cfg ℝ) (h : ℝ) (h0 : 0 < h) (h1 : h < 1)
     (hH : c.logH = Real.log h) (h1H : c.log1mH = Real.log (1 - h)) (hpv : 0 < c.priorVar) (hdv : 0 < c.dataVar)
     (xs : List ℝ) : 0 < ((allConfigs xs.length).map (jointRev f c h xs.reverse)).sum := by
-  rw [← evidence_eq_joint f hLSE c h h0 h1 hH h1H hpv hdv xs]
-  apply sum_exp_pos
-  intro h0
-  have := (lenInv_runUpd f c xs).2.1
-  rw [h0] at this; simp at this
+  rw [← U.evidence_eq_joint f hLSE c h h0 h1 hH h1H hpv hdv xs]
+  exact U.msg_sum_pos f c xs
+
+/-! ### 4b-M. The model: the normalised message IS the posterior -/
+
+theorem sum_zipWith_map_div (Z : ℝ) (F : ℕ → ℝ) : ∀ (M : List ℝ) (R : List ℕ),
+    (List.zipWith (fun m r => m * F r) (M.map (· / Z)) R).sum = (List.zipWith (fun m r => m * F r) M R).sum / Z := by
+  intro M
+  induction M with
+  | nil => intro R; simp
+  | cons m M ih =>
+    intro R
+    cases R with
+    | nil => simp
+    | cons r R => simp only [List.map_cons, List.zipWith_cons_cons, List.sum_cons, ih R]; ring
+
+theorem sum_zipWith_mul_map_div (Z a : ℝ) : ∀ (M π : List ℝ),
+    (List.zipWith (fun m p => m * p * a) (M.map (· / Z)) π).sum = (List.zipWith (fun m p => m * p * a) M π).sum / Z := by
+  intro M
+  induction M with
+  | nil => intro π; simp
+  | cons m M ih =>
+    intro π
+    cases π with
+    | nil => simp
+    | cons p π => simp only [List.map_cons, List.zipWith_cons_cons, List.sum_cons, ih π]; ring
+
+/-- the forward step is linear in the message: dividing the message by `Z` divides `Σ fwd` by `Z` -/
+theorem fwd_sum_map_div (h Z : ℝ) (M π : List ℝ) : (fwd h (M.map (· / Z)) π).sum = (fwd h M π).sum / Z := by
+  unfold fwd
+  rw [List.sum_cons, List.sum_cons, sum_zipWith_mul_map_div, sum_zipWith_mul_map_div]
+  ring
+
+/-- **Forward-algorithm correctness (test-function form), MODEL (normalised message).**  For every `φ`,
+`Σ_r M_t[r]·φ(r) = Σ_{configurations} P(config, x_{1:t})·φ(run length of config) / Σ_{configurations} P(config, x_{1:t})`
+— the message integrates test functions like the run-length POSTERIOR (the divisor is positive: `evidence_pos`).
+[Before the repair the right-hand side had no divisor — now `U.message_eq_joint_test`.] -/
+theorem message_eq_joint_test (f : Fns ℝ) (hLSE : LSESpec f) (c : Cfg ℝ) (h : ℝ) (h0 : 0 < h) (h1 : h < 1)
+    (hH : c.logH = Real.log h) (h1H : c.log1mH = Real.log (1 - h)) (hpv : 0 < c.priorVar) (hdv : 0 < c.dataVar)
+    (xs : List ℝ) : ∀ φ : ℕ → ℝ,
+    (List.zipWith (fun m r => m * φ r) (msg (runUpd f c xs)) (List.range (xs.length + 1))).sum =
+      ((allConfigs xs.length).map (fun bs => jointRev f c h xs.reverse bs * φ (runLen bs))).sum /
+        ((allConfigs xs.length).map (jointRev f c h xs.reverse)).sum := by
+  intro φ
+  rw [sim_msg f hLSE c xs, normalise, sum_zipWith_map_div,
+    U.message_eq_joint_test f hLSE c h h0 h1 hH h1H hpv hdv xs φ,
+    U.evidence_eq_joint f hLSE c h h0 h1 hH h1H hpv hdv xs]
+
+/-- **Forward-algorithm correctness, entrywise, MODEL**: `M_t[r] = P(r_t = r | x_{1:t})`, the sum of the joint
+weights of all changepoint configurations whose current run length is `r`, divided by the evidence.
+[Before the repair: no division — now `U.message_eq_joint`.] -/
+theorem message_eq_joint (f : Fns ℝ) (hLSE : LSESpec f) (c : Cfg ℝ) (h : ℝ) (h0 : 0 < h) (h1 : h < 1)
+    (hH : c.logH = Real.log h) (h1H : c.log1mH = Real.log (1 - h)) (hpv : 0 < c.priorVar) (hdv : 0 < c.dataVar)
+    (xs : List ℝ) (r : ℕ) (hr : r < (msg (runUpd f c xs)).length) :
+    (msg (runUpd f c xs))[r] =
+      (((allConfigs xs.length).filter (fun bs => decide (runLen bs = r))).map (jointRev f c h xs.reverse)).sum /
+        ((allConfigs xs.length).map (jointRev f c h xs.reverse)).sum := by
+  have hm := sim_msg f hLSE c xs
+  have hr' : r < (msg (BOCDU.runUpd f c xs)).length := by
+    rw [U.msg_length]; rw [msg_length] at hr; exact hr
+  rw [List.getElem_of_eq hm hr]
+  simp only [normalise, List.getElem_map]
+  rw [U.message_eq_joint f hLSE c h h0 h1 hH h1H hpv hdv xs r hr',
+    U.evidence_eq_joint f hLSE c h h0 h1 hH h1H hpv hdv xs]
+
+/-- **the evidence and the model.**  `Z_t = Σ_{all configurations} P(config, x_{1:t}) = P(x_{1:t})`.
+ (i) the UNNORMALISED (ghost) message sums to the evidence [the statement before the repair, about `BOCDU`];
+ (ii) the ghost message is the model's message times the evidence (the model's message is the ghost's divided by
+      `Z_t`; the model's own message sums to `1`, `message_normalised`);
+ (iii) the quantity the MODEL normalises by at update `t+1`, `Σ fwd h M_t π_t = exp (logsumexp joint)`, is the
+      one-step-ahead predictive density `P(x_{t+1} | x_{1:t}) = Z_{t+1} / Z_t` (stated without division). -/
+theorem evidence_eq_joint (f : Fns ℝ) (hLSE : LSESpec f) (c : Cfg ℝ) (h : ℝ) (h0 : 0 < h) (h1 : h < 1)
+    (hH : c.logH = Real.log h) (h1H : c.log1mH = Real.log (1 - h)) (hpv : 0 < c.priorVar) (hdv : 0 < c.dataVar)
+    (xs : List ℝ) :
+    (msg (BOCDU.runUpd f c xs)).sum = ((allConfigs xs.length).map (jointRev f c h xs.reverse)).sum ∧
+    msg (BOCDU.runUpd f c xs) =
+      (msg (runUpd f c xs)).map (· * ((allConfigs xs.length).map (jointRev f c h xs.reverse)).sum) ∧
+    ∀ v : ℝ, (fwd h (msg (runUpd f c xs)) ((List.range (xs.length + 1)).map (piAt f c xs v))).sum *
+        ((allConfigs xs.length).map (jointRev f c h xs.reverse)).sum =
+      ((allConfigs (xs ++ [v]).length).map (jointRev f c h (xs ++ [v]).reverse)).sum := by
+  have hZ := U.evidence_eq_joint f hLSE c h h0 h1 hH h1H hpv hdv xs
+  have hpos := evidence_pos f hLSE c h h0 h1 hH h1H hpv hdv xs
+  refine ⟨hZ, ?_, ?_⟩
+  · rw [sim_msg f hLSE c xs, normalise, hZ, List.map_map]
+    conv_lhs => rw [← List.map_id (msg (BOCDU.runUpd f c xs))]
+    apply List.map_congr_left
+    intro x _
+    simp only [Function.comp, id]
+    field_simp
+  · intro v
+    rw [sim_msg f hLSE c xs, normalise, fwd_sum_map_div, hZ, div_mul_cancel₀ _ hpos.ne',
+      ← U.evidence_eq_joint f hLSE c h h0 h1 hH h1H hpv hdv (xs ++ [v]),
+      (U.message_forward f hLSE c h h0 h1 hH h1H hpv hdv xs v).2.1]
+    rfl
+
+/-- **NEW (C08n). Normalised versus unnormalised message along a run.**  After the updates `xs`
+(`t = xs.length`): the MODEL's message sums to `1`, the ghost's (the code before the repair) to the evidence
+`P(x_{1:t})`, and entrywise `M^U_t[r] = M_t[r] · P(x_{1:t})`. -/
+theorem message_normalised_vs_evidence (f : Fns ℝ) (hLSE : LSESpec f) (c : Cfg ℝ) (h : ℝ) (h0 : 0 < h) (h1 : h < 1)
+    (hH : c.logH = Real.log h) (h1H : c.log1mH = Real.log (1 - h)) (hpv : 0 < c.priorVar) (hdv : 0 < c.dataVar)
+    (xs : List ℝ) :
+    (msg (runUpd f c xs)).sum = 1 ∧
+    (msg (BOCDU.runUpd f c xs)).sum = ((allConfigs xs.length).map (jointRev f c h xs.reverse)).sum ∧
+    msg (BOCDU.runUpd f c xs) =
+      (msg (runUpd f c xs)).map (· * ((allConfigs xs.length).map (jointRev f c h xs.reverse)).sum) :=
+  ⟨(message_normalised f hLSE c (runUpd_reachable f c xs)).2.1,
+    (evidence_eq_joint f hLSE c h h0 h1 hH h1H hpv hdv xs).1,
+    (evidence_eq_joint f hLSE c h h0 h1 hH h1H hpv hdv xs).2.1⟩
 
 /-- **C08 headline: BOCD maintains the exact Bayesian run-length posterior.**
 `exp(row_t[r]) = P(r_t = r | x_{1:t}) = Σ_{configs with run length r} P(config, x_{1:t}) / Σ_{all configs} P(config, x_{1:t})`. -/
@@ -634,20 +1092,21 @@ theorem posterior_exact (f : Fns ℝ) (hLSE : LSESpec f) (c : Cfg ℝ) (h : ℝ)
     Real.exp (runUpd f c xs).row[r] =
       (((allConfigs xs.length).filter (fun bs => decide (runLen bs = r))).map (jointRev f c h xs.reverse)).sum /
         ((allConfigs xs.length).map (jointRev f c h xs.reverse)).sum := by
-  have hrow := row_eq_log_msg f hLSE c h h0 h1 hH h1H xs
-  have hr' : r < (msg (runUpd f c xs)).length := by
-    rw [msg_length]; rw [(lenInv_runUpd f c xs).1, runUpd_n] at hr; exact hr
-  have e : (runUpd f c xs).row[r] = Real.log ((msg (runUpd f c xs))[r] / (msg (runUpd f c xs)).sum) := by
-    simp only [hrow, List.getElem_map]
-  have hne : (runUpd f c xs).logMessage ≠ [] := by
-    intro h0
-    have := (lenInv_runUpd f c xs).2.1
-    rw [h0] at this; simp at this
-  have hS : 0 < (msg (runUpd f c xs)).sum := sum_exp_pos _ hne
-  have hM : 0 < (msg (runUpd f c xs))[r] := by
-    simp only [msg, List.getElem_map]; exact Real.exp_pos _
-  rw [e, Real.exp_log (div_pos hM hS), message_eq_joint f hLSE c h h0 h1 hH h1H hpv hdv xs r hr',
-    evidence_eq_joint f hLSE c h h0 h1 hH h1H hpv hdv xs]
+  have hm := (message_normalised f hLSE c (runUpd_reachable f c xs)).1
+  have hr' : r < (msg (runUpd f c xs)).length := by rw [hm, List.length_map]; exact hr
+  rw [← message_eq_joint f hLSE c h h0 h1 hH h1H hpv hdv xs r hr', List.getElem_of_eq hm hr', List.getElem_map]
+
+example := message_eq_joint_test exFns exFns_spec (exCfg (1/4)) (1/4) (by norm_num) (by norm_num) rfl rfl
+  (by norm_num [exCfg]) (by norm_num [exCfg]) [1, 2, 5]
+example := evidence_eq_joint exFns exFns_spec (exCfg (1/4)) (1/4) (by norm_num) (by norm_num) rfl rfl
+  (by norm_num [exCfg]) (by norm_num [exCfg]) [1, 2, 5]
+example := message_normalised_vs_evidence exFns exFns_spec (exCfg (1/4)) (1/4) (by norm_num) (by norm_num) rfl rfl
+  (by norm_num [exCfg]) (by norm_num [exCfg]) [1, 2, 5]
+example : (msg (runUpd exFns (exCfg (1/4)) [1, 2, 5]))[2]'(by rw [msg_length]; simp) =
+    (((allConfigs 3).filter (fun bs => decide (runLen bs = 2))).map (jointRev exFns (exCfg (1/4)) (1/4) [5, 2, 1])).sum /
+      ((allConfigs 3).map (jointRev exFns (exCfg (1/4)) (1/4) [5, 2, 1])).sum :=
+  message_eq_joint exFns exFns_spec (exCfg (1/4)) (1/4) (by norm_num) (by norm_num) rfl rfl
+    (by norm_num [exCfg]) (by norm_num [exCfg]) [1, 2, 5] 2 (by rw [msg_length]; simp)
 
 /-- changing `logC` rescales every predictive density by the same constant -/
 theorem predDens_scale (f f' : Fns ℝ) (c : Cfg ℝ) (mu p v : ℝ) :
@@ -913,5 +1372,23 @@ example : (runUpd exFns (exCfg (1/4)) [2]).predMean = some (3/4) ∧
 #print axioms pred_mixture
 #print axioms pred_mixture_posterior
 #print axioms pred_mean_first
+-- C08n: new theorems (normalised message, ghost recursion, simulation)
+#print axioms logMessage_eq_row
+#print axioms U.step_shift
+#print axioms sim_run
+#print axioms sim_fields
+#print axioms sim_msg
+#print axioms normaliser_eq
+#print axioms message_normalised_step
+#print axioms message_normalised
+#print axioms message_normalised_vs_evidence
+#print axioms msg_after_one
+#print axioms evidence_pos
+#print axioms U.message_forward_step
+#print axioms U.message_forward
+#print axioms U.row_eq_log_msg
+#print axioms U.message_eq_joint_test
+#print axioms U.message_eq_joint
+#print axioms U.evidence_eq_joint
 
 end Frouros.C08
